@@ -206,7 +206,8 @@ def run_case(case):
     rec = Recorder()
     with core.workdir() as d:
         if case.get("kind") == "real":
-            res, text = rc.run_realign(case, d, platform=None, sub="out.gaf")
+            res, text = rc.run_realign_subprocess(case, d, case["cores"], case["batch"])
+            core.check(res[0] != "timeout", "real processes: realign did not terminate within %s s", res[1])
         else:
             res, text = rc.run_realign(case, d, platform=fakemp.Platform(fakemp.Chooser([])), sub="out.gaf", recorder=rec,
                                        via=case.get("via", "api"))
